@@ -81,7 +81,7 @@ theorem connected_mid {roots cobs armed pend Hd w st} (h : RelC' roots cobs arme
     have h5l : 5 < w.cells.length := by rw [X.nCells]; omega
     refine
       { held := X.held, slot0 := X.slot0, slot1 := X.slot1, slot2 := X.slot2, slot3 := X.slot3
-        obsvH := X.obsvH, obsvS := X.obsvS
+        obsvS := X.obsvS
         cellG := ?_, cellB := ?_, cellN := ?_, nCells := ?_, sbLt := ?_ }
     · show ((connWorld Hp fnP feP fcP _ _ _).cells.set 5 _)[4]? = _
       rw [set_get_other _ (by decide), connWorld_cells Hp fnP feP fcP _ _ _ (by decide) (by decide)
@@ -156,7 +156,7 @@ theorem onSubHook_spec {roots cobs armed pend Hd w st} (h : RelC' roots cobs arm
       refine wp_cellWriteG h.held ?_
       have hm : st.conns.length = cobs.length := h.conns.lenC.symm
       refine connect_pre (H := Hp) (hid := 0) (fn := fnP) (fe := feP) (fc := fcP)
-        (hmap := liveFrom 0 cobs st.conns) (m := st.conns.length) h.held X.obsvH X.slot0 h.conns.ne
+        (hmap := liveFrom 0 cobs st.conns) (m := st.conns.length) h.held h.conns.obsv X.slot0 h.conns.ne
         (by show (w.cells.set 4 _)[0]? = _; rw [set_get_other _ (by decide)]; exact h.conns.cellO)
         (by show (w.cells.set 4 _)[1]? = _; rw [set_get_other _ (by decide)]; exact h.conns.cellS)
         (fun p hp => by have := (liveFrom_keys 0 cobs st.conns p hp).2; omega) ?_
